@@ -809,17 +809,19 @@ func (f *fragment) unprotectedSetRow(row *Row, rowID uint64) (changed bool, err 
 	}
 
 	// From the given row, get the rowSegment for this shard.
-	seg := row.segment(f.shard)
-	if seg == nil {
-		return changed, nil
+	// (If the row has no data for this shard, the stored row is just
+	// cleared; caches and checksums still have to be updated below.)
+	if seg := row.segment(f.shard); seg != nil {
+		// Put each container from rowSegment to fragment storage.
+		citer, _ := seg.data.Containers.Iterator(f.shard << shardVsContainerExponent)
+		for citer.Next() {
+			k, c := citer.Value()
+			f.storage.Containers.Put(headContainerKey+(k%(1<<shardVsContainerExponent)), c)
+		}
 	}
 
-	// Put each container from rowSegment to fragment storage.
-	citer, _ := seg.data.Containers.Iterator(f.shard << shardVsContainerExponent)
-	for citer.Next() {
-		k, c := citer.Value()
-		f.storage.Containers.Put(headContainerKey+(k%(1<<shardVsContainerExponent)), c)
-	}
+	// Invalidate block checksum.
+	delete(f.checksums, int(rowID/HashBlockSize))
 
 	// Update the row in cache.
 	if f.CacheType != CacheTypeNone {
@@ -866,9 +868,15 @@ func (f *fragment) unprotectedClearRow(rowID uint64) (changed bool, err error) {
 		// to return true if any existing data was removed.
 		if cont := f.storage.Containers.Get(k); cont != nil {
 			f.storage.Containers.Remove(k)
-			changed = true
+			// an empty container holds no data
+			if cont.N() > 0 {
+				changed = true
+			}
 		}
 	}
+
+	// Invalidate block checksum.
+	delete(f.checksums, int(rowID/HashBlockSize))
 
 	// Clear the row in cache.
 	f.cache.Add(rowID, 0)
@@ -2262,6 +2270,8 @@ func (f *fragment) importRoaring(ctx context.Context, data []byte, clear bool) e
 		if changes == 0 {
 			continue
 		}
+		// Invalidate block checksum.
+		delete(f.checksums, int(rowID/HashBlockSize))
 		f.rowCache.Add(rowID, nil)
 		if updateCache {
 			anyChanged = true
